@@ -45,7 +45,42 @@ var c12Values = map[string][]byte{
 	"0a0b": []byte("SECRET-VALUE-third-00003"),
 }
 
+// the crypto service of the harness's own decrypter, looking at every content encryption key it unwraps
+type c12SpyCrypto struct {
+	cryptoapi.Crypto
+	last []byte
+}
+
+func (c *c12SpyCrypto) UnwrapKey(rec *cryptoapi.RecipientWrappedKey, kh interface{}, opts ...cryptoapi.WrapKeyOpts) ([]byte, error) {
+	cek, err := c.Crypto.UnwrapKey(rec, kh, opts...)
+	if err == nil {
+		c.last = append([]byte{}, cek...)
+	}
+	return cek, err
+}
+
+// a content encryption key has to be random: eight zero bytes in a row do not happen by chance
+func c12WeakKey(k []byte) bool {
+	run := 0
+	for _, b := range k {
+		if b == 0 {
+			run++
+			if run >= 8 {
+				return true
+			}
+		} else {
+			run = 0
+		}
+	}
+	return len(k) == 0
+}
+
 type c12Env struct {
+	spy     *c12SpyCrypto
+	pk      *cryptoapi.PublicKey
+	encs    map[string]jose.Encrypter
+	seenCEK map[string]int
+	weak    string
 	kms     kmsapi.KeyManager
 	mac     *edv.MACCrypto
 	dec     jose.Decrypter
@@ -89,12 +124,13 @@ func c12SetupReal() {
 	if err != nil {
 		panic(err)
 	}
-	dec := jose.NewJWEDecrypt(nil, envCrypto, k)
+	spy := &c12SpyCrypto{Crypto: envCrypto}
+	dec := jose.NewJWEDecrypt(nil, spy, k)
 	_, macKH, err := k.Create(kmsapi.HMACSHA256Tag256Type)
 	if err != nil {
 		panic(err)
 	}
-	e := &c12Env{kms: k, mac: edv.NewMACCrypto(macKH, envCrypto), dec: dec, enc: enc,
+	e := &c12Env{spy: spy, pk: pk, encs: map[string]jose.Encrypter{}, kms: k, mac: edv.NewMACCrypto(macKH, envCrypto), dec: dec, enc: enc,
 		macToID: map[string]string{}, docToID: map[string]string{}}
 	for label, atom := range c12Atoms {
 		m, err := e.mac.ComputeMAC([]byte(atom))
@@ -262,9 +298,21 @@ func (e *c12Env) canonDoc(v []byte) string {
 	if err != nil {
 		return "raw(" + hex.EncodeToString(v) + ")"
 	}
+	e.spy.last = nil
 	pt, err := e.dec.Decrypt(jwe)
 	if err != nil {
 		return "raw(" + hex.EncodeToString(v) + ")"
+	}
+	if e.seenCEK != nil && e.countJWE && e.weak == "" {
+		// the key the document was encrypted with (the harness owns the recipient key): random, and a fresh one per write
+		cek := e.spy.last
+		if c12WeakKey(cek) {
+			e.weak = fmt.Sprintf("content encryption key of a written document is not random (%d bytes, zero run)", len(cek))
+		}
+		e.seenCEK[string(cek)+"|"+jwe.IV]++
+		if e.seenCEK[string(cek)+"|"+jwe.IV] > 1 && e.seenJWE[jwe.Ciphertext+"|"+jwe.IV] == 0 {
+			e.weak = "content encryption key and iv used for two different documents"
+		}
 	}
 	if e.seenJWE != nil && e.countJWE {
 		e.seenJWE[jwe.Ciphertext+"|"+jwe.IV]++
@@ -468,7 +516,21 @@ func c12Run(input string) string {
 	if strings.HasPrefix(parts[0], "det") {
 		opts = append(opts, edv.WithDeterministicDocumentIDs())
 	}
-	formatter := edv.NewEncryptedFormatter(e.enc, e.dec, e.mac, opts...)
+	// "det@A256CBC-HS512": the content encryption algorithm the store is configured with (default A256GCM)
+	enc := e.enc
+	if at := strings.Index(parts[0], "@"); at >= 0 {
+		alg := strings.TrimSuffix(parts[0][at+1:], "+cfg")
+		if e.encs[alg] == nil {
+			ne, err := jose.NewJWEEncrypt(jose.EncAlg(alg), "", "", "", nil, []*cryptoapi.PublicKey{e.pk}, envCrypto)
+			if err != nil {
+				return "bad-input enc " + err.Error()
+			}
+			e.encs[alg] = ne
+		}
+		enc = e.encs[alg]
+		parts[0] = parts[0][:at] + map[bool]string{true: "+cfg", false: ""}[strings.HasSuffix(parts[0], "+cfg")]
+	}
+	formatter := edv.NewEncryptedFormatter(enc, e.dec, e.mac, opts...)
 	p := formattedstore.NewProvider(rec, formatter)
 	st, err := p.OpenStore("s")
 	if err != nil {
@@ -483,6 +545,18 @@ func c12Run(input string) string {
 		if op == "" || op == "reopen" {
 			continue
 		}
+		if strings.HasPrefix(op, "cfg ") {
+			// the store is configured (again) in the middle of its life: "cfg a,b"
+			var names []string
+			for _, n := range strings.Split(strings.TrimPrefix(op, "cfg "), ",") {
+				if a, ok := c12Atoms[n]; ok {
+					names = append(names, a)
+				}
+			}
+			_ = p.SetStoreConfig("s", spi.StoreConfiguration{TagNames: names})
+			_, _ = p.GetStoreConfig("s")
+			continue
+		}
 		c11Apply(st, c12Translate(op))
 	}
 	if strings.Contains(parts[1], "query ") {
@@ -495,6 +569,7 @@ func c12Run(input string) string {
 	}
 	var canon []string
 	e.seenJWE, e.reused = map[string]int{}, false
+	e.seenCEK, e.weak = map[string]int{}, ""
 	for _, c := range log {
 		// only what is WRITTEN counts (a document read back and looked at again is the same ciphertext, of course)
 		e.countJWE = c.method == "Put" || c.method == "Batch"
@@ -504,6 +579,9 @@ func c12Run(input string) string {
 	scan := c12Scan(log, canon)
 	if scan == "clean" && e.reused {
 		scan = "LEAK the same ciphertext was written twice (equal data is recognisable)"
+	}
+	if scan == "clean" && e.weak != "" {
+		scan = "LEAK " + e.weak
 	}
 	return strings.Join(canon, " ; ") + " || scan=" + scan
 }
@@ -536,12 +614,24 @@ func c12Gen(r *Rng, tier string) []string {
 				ops = append(ops, ops[puts[r.N(len(puts))]])
 			}
 		}
+		if r.N(3) == 0 {
+			// the store is configured again, with the same or with other tag names, once or twice
+			for k := 1 + r.N(2); k > 0; k-- {
+				at := r.N(len(ops) + 1)
+				ops = append(ops[:at], append([]string{"cfg " + r.Pick([]string{"a,b,c", "a,b", "a,c", "b", "c,a"})}, ops[at:]...)...)
+			}
+		}
 		if i%5 == 4 {
 			// the REST provider against an in-process vault server
 			out = append(out, "rest:"+[]string{"-", "d", "b", "db", "f", "bf", "dbf", "df"}[(i/5)%8]+"|"+strings.Join(ops, ";"))
 			continue
 		}
-		out = append(out, modes[i%4]+"|"+strings.Join(ops, ";"))
+		mode := modes[i%4]
+		if r.N(2) == 0 {
+			alg := r.Pick([]string{"XC20P", "A128CBC-HS256", "A192CBC-HS384", "A256CBC-HS384", "A256CBC-HS512"})
+			mode = strings.Replace(mode+"@"+alg, "+cfg@"+alg, "@"+alg+"+cfg", 1)
+		}
+		out = append(out, mode+"|"+strings.Join(ops, ";"))
 	}
 	return out
 }
